@@ -78,6 +78,7 @@ type ClientScenario struct {
 	Raw        bool  // DHCPv4 only: the client runs on nclient4.NewBroadcastUDPConn(<scripted conn>), the production stack (datagrams are IPv4/UDP frames)
 	Twin       bool  // a second client on its own connection has a call in flight with the SAME transaction id as call 0 and gets its own reply (serial 99): clients share nothing
 	Decoy      bool  // a second client with a different configuration is constructed (and closed) after the one under test
+	LogKind    int   // with Log: 0 the debug logger, 1 the summary logger, 2 a caller-supplied logger that prints every message (DHCPv4; DHCPv6 has none: summary)
 	Log        bool  // the client is configured with its debug logger (output discarded) and, for DHCPv6, with WithLogDroppedPackets
 	Bound      int
 	Rules      string // which rule groups the oracle enforces: any of "ABCDE..." see oracle
@@ -94,7 +95,7 @@ func (s *ClientScenario) String() string {
 		b.WriteString("(conn.Close reports an error) ")
 	}
 	if s.Log {
-		b.WriteString("(debug logger, dropped packets logged) ")
+		b.WriteString("(" + [...]string{"debug", "summary", "caller-supplied"}[s.LogKind] + " logger, dropped packets logged) ")
 	}
 	if s.Raw {
 		b.WriteString("(over the raw broadcast connection) ")
@@ -128,6 +129,21 @@ func quiet(f func()) {
 	defer func() { os.Stderr = old }()
 	f()
 }
+
+// readLogger4/readLogger6: caller-supplied loggers that render everything they are given (and throw it away)
+type readLogger4 struct{}
+
+func (readLogger4) PrintMessage(prefix string, m *dhcpv4.DHCPv4) {
+	_ = prefix + m.Summary() + m.String()
+}
+func (readLogger4) Printf(format string, v ...interface{}) { _ = fmt.Sprintf(format, v...) }
+
+type readLogger6 struct{}
+
+func (readLogger6) PrintMessage(prefix string, m *dhcpv6.Message) {
+	_ = prefix + m.Summary() + m.String()
+}
+func (readLogger6) Printf(format string, v ...interface{}) { _ = fmt.Sprintf(format, v...) }
 
 func quiet4(o nclient4.ClientOpt) nclient4.ClientOpt {
 	return func(c *nclient4.Client) (err error) { quiet(func() { err = o(c) }); return }
@@ -321,7 +337,14 @@ func (s *ClientScenario) body(out **clientRun) func() {
 		if !s.V6 {
 			opts4 := []nclient4.ClientOpt{nclient4.WithTimeout(T), nclient4.WithRetry(s.Tries), nclient4.WithServerAddr(serverAddr)}
 			if s.Log {
-				opts4 = append(opts4, quiet4(nclient4.WithDebugLogger()))
+				switch s.LogKind {
+				case 1:
+					opts4 = append(opts4, quiet4(nclient4.WithSummaryLogger()))
+				case 2:
+					opts4 = append(opts4, nclient4.WithLogger(readLogger4{}))
+				default:
+					opts4 = append(opts4, quiet4(nclient4.WithDebugLogger()))
+				}
 			}
 			var pc net.PacketConn = conn
 			if s.Raw {
@@ -398,7 +421,11 @@ func (s *ClientScenario) body(out **clientRun) func() {
 		} else {
 			opts6 := []nclient6.ClientOpt{nclient6.WithTimeout(T), nclient6.WithRetry(s.Tries), nclient6.WithBroadcastAddr(serverAddr6)}
 			if s.Log {
-				opts6 = append(opts6, nclient6.WithLogDroppedPackets(), quiet6(nclient6.WithDebugLogger()))
+				if s.LogKind == 0 {
+					opts6 = append(opts6, nclient6.WithLogDroppedPackets(), quiet6(nclient6.WithDebugLogger()))
+				} else {
+					opts6 = append(opts6, nclient6.WithLogDroppedPackets(), quiet6(nclient6.WithSummaryLogger()))
+				}
 			}
 			cl, err := nclient6.NewWithConn(conn, clientMAC, opts6...)
 			if err != nil {
